@@ -367,3 +367,52 @@ def rename_self_calls(sl, fname, pattern=None, minimum=1, rule="L12:self-call->c
     sl.text = head + "{" + body
     sl.rules[rule + ":" + fname] = n
     return sl
+
+
+def lower_range_for(sl, elem_type, required=False):
+    """Rule L7: every `for ([const] auto[&] X : EXPR) BODY` -> iterator loop whose body starts with
+    `[const] ELEM& X = *verif_it;` (the standard's own definition of range-for)."""
+    count = 0
+    while True:
+        ts = Source("<slice:%s>" % sl.name, text=sl.text)
+        m = None
+        for mm in re.finditer(r"\bfor\s*\(\s*(const\s+)?auto\s*(&?)\s*(\w+)\s*:\s*", ts.text):
+            if ts.mask[mm.start()] == "c":
+                m = mm
+                break
+        if not m:
+            break
+        p = ts.text.index("(", m.start())
+        pe = ts.match_brace(p)
+        expr = ts.text[m.end():pe - 1].strip()
+        body_end = _statement_end(ts, pe)
+        body = ts.text[pe:body_end].strip()
+        if body.startswith("{"):
+            body = body[1:-1]
+        const = "const " if m.group(1) else ""
+        ref = "&" if m.group(2) else ""
+        it = "verif_it%d" % count
+        new = ("for (%s* %s = (%s).begin(); %s != (%s).end(); ++%s) { %s%s%s %s = *%s; %s }"
+               % (elem_type, it, expr, it, expr, it, const, elem_type, ref, m.group(3), it, body))
+        sl.text = ts.text[:m.start()] + new + ts.text[body_end:]
+        count += 1
+    sl.rules["L7:range-for->iterator loop"] = sl.rules.get("L7:range-for->iterator loop", 0) + count
+    if required and count == 0:
+        raise ExtractionBroken(f"slice {sl.name}: rule L7 fired 0 times")
+    return sl
+
+
+def static_helpers(src, exclude=()):
+    """Top-level `static ...(...) {...}` function definitions of a file (helpers a refactoring may add),
+    except those whose name is in `exclude`."""
+    out = []
+    for m in re.finditer(r"^static\s+[\w:<>\*&\s]+?\b(\w+)\s*\(", src.text, re.M):
+        if src.mask[m.start()] != "c" or m.group(1) in exclude:
+            continue
+        p = src.text.index("(", m.start())
+        pe = src.match_brace(p)
+        b = src.next_code_char(pe, "{;")
+        if src.text[b] != "{":
+            continue
+        out.append(Slice("static helper " + m.group(1), src, m.start(), src.match_brace(b)))
+    return out
